@@ -564,6 +564,74 @@ func ruleCacheRead(prog *Program, rep *Report) {
 			})
 		}
 	}
+	// a selector local (sm := structMap; if omitEmpty { sm = structEmptyMap }) must be able to hold two different caches
+	for _, rel := range []string{"oj", "sen", "alt"} {
+		pk := prog.Pkg(rel)
+		if pk == nil {
+			continue
+		}
+		info := pk.TypesInfo
+		for _, f := range pk.Syntax {
+			for _, d := range f.Decls {
+				fd, ok := d.(*ast.FuncDecl)
+				if !ok || fd.Body == nil {
+					continue
+				}
+				assigned := map[types.Object]map[string]bool{}
+				cond := map[types.Object]bool{}
+				var walk func(n ast.Node, underIf bool)
+				walk = func(n ast.Node, underIf bool) {
+					ast.Inspect(n, func(k ast.Node) bool {
+						switch x := k.(type) {
+						case *ast.IfStmt:
+							walk(x.Body, true)
+							if x.Else != nil {
+								walk(x.Else, true)
+							}
+							return false
+						case *ast.AssignStmt:
+							if len(x.Lhs) == 1 && len(x.Rhs) == 1 {
+								if id, ok := x.Lhs[0].(*ast.Ident); ok {
+									lo := info.Defs[id]
+									if lo == nil {
+										lo = info.Uses[id]
+									}
+									ro := useObj(info, x.Rhs[0])
+									if lo != nil && ro != nil {
+										if v, ok := ro.(*types.Var); ok && v.Parent() == pk.Types.Scope() {
+											if _, isMap := v.Type().Underlying().(*types.Map); isMap {
+												if assigned[lo] == nil {
+													assigned[lo] = map[string]bool{}
+												}
+												assigned[lo][ro.Name()] = true
+												if underIf {
+													cond[lo] = true
+												}
+											}
+										}
+									}
+								}
+							}
+						}
+						return true
+					})
+				}
+				walk(fd.Body, false)
+				for lo, set := range assigned {
+					if !cond[lo] {
+						continue
+					}
+					n++
+					key := fmt.Sprintf("%s.%s:selector:%s", rel, funcKey(fd), lo.Name())
+					if len(set) >= 2 {
+						rep.Discharge("K-cacheread", key, prog.Pos(fd.Pos()), "selects between two caches")
+					} else {
+						rep.Violate(Finding{Rule: "K-cacheread", Key: key, Pos: prog.Pos(fd.Pos()), Msg: fmt.Sprintf("%s re-assigns its cache selector %s under a condition, but to the same cache it already held: both settings read one cache while the builder files plans in two", funcKey(fd), lo.Name())})
+					}
+				}
+			}
+		}
+	}
 	rep.Eval(n)
 	if n < 4 {
 		rep.Errorf("K-cacheread examined %d lookup functions (floor 4): anchors did not resolve", n)
